@@ -125,10 +125,11 @@ func c09StallRT(in *c09In, reached *c09Reached, release <-chan struct{}, answer 
 // request, and writes nothing ("stall") or the headers and the first bytes of a body that never
 // ends ("stallbody").  Connections stay open until stop is called.
 type c09StallListener struct {
-	ln    net.Listener
-	mu    sync.Mutex
-	conns []net.Conn
-	wg    sync.WaitGroup
+	ln        net.Listener
+	mu        sync.Mutex
+	conns     []net.Conn
+	wg        sync.WaitGroup // the connection handlers
+	accepting chan struct{}  // closed when the accept loop has ended
 }
 
 func c09StallListen(in *c09In, reached *c09Reached, answer func(req []byte) []byte) (*c09StallListener, error) {
@@ -137,10 +138,9 @@ func c09StallListen(in *c09In, reached *c09Reached, answer func(req []byte) []by
 	if err != nil {
 		return nil, err
 	}
-	l := &c09StallListener{ln: ln}
-	l.wg.Add(1)
+	l := &c09StallListener{ln: ln, accepting: make(chan struct{})}
 	go func() {
-		defer l.wg.Done()
+		defer close(l.accepting)
 		for {
 			conn, err := ln.Accept()
 			if err != nil {
@@ -175,14 +175,25 @@ func c09StallListen(in *c09In, reached *c09Reached, answer func(req []byte) []by
 
 func (l *c09StallListener) url() string { return "http://" + l.ln.Addr().String() + "/saml/artifact" }
 
+// stop closes the listener and every connection it accepted.  The accept loop is waited for BEFORE the
+// connections are closed: a connection that Accept handed out while the listener was being closed (a dial
+// of the transport that completed after its request had been given up) would otherwise be registered
+// after the sweep and never be closed - its handler, and with it this function, would wait for a peer
+// that keeps the idle connection open for ever.
 func (l *c09StallListener) stop() {
 	l.ln.Close()
+	<-l.accepting
 	l.mu.Lock()
 	for _, c := range l.conns {
 		c.Close()
 	}
 	l.mu.Unlock()
-	l.wg.Wait()
+	done := make(chan struct{})
+	go func() { l.wg.Wait(); close(done) }()
+	select {
+	case <-done:
+	case <-time.After(10 * time.Second): // a handler that does not end is left behind rather than waited for
+	}
 }
 
 // runStall: ParseResponse with a SAMLart parameter against a stalled artifact resolution endpoint.
